@@ -36,7 +36,18 @@ func (b *ProcessLogBuffer) Write(message string) {
 
 }
 
+// GetLogRange returns a copy of the requested window of the log
 func (b *ProcessLogBuffer) GetLogRange(offsetFromEnd, limit int) []string {
+	b.mx.Lock()
+	defer b.mx.Unlock()
+	window := b.getLogRange(offsetFromEnd, limit)
+	res := make([]string, len(window))
+	copy(res, window)
+	return res
+}
+
+// getLogRange must be called with the lock held
+func (b *ProcessLogBuffer) getLogRange(offsetFromEnd, limit int) []string {
 	if len(b.buffer) == 0 {
 		return []string{}
 	}
@@ -64,13 +75,15 @@ func (b *ProcessLogBuffer) GetLogRange(offsetFromEnd, limit int) []string {
 }
 
 func (b *ProcessLogBuffer) GetLogLength() int {
+	b.mx.Lock()
+	defer b.mx.Unlock()
 	return len(b.buffer)
 }
 
 func (b *ProcessLogBuffer) GetLogsAndSubscribe(observer LogObserver) {
 	b.mx.Lock()
 	defer b.mx.Unlock()
-	observer.SetLines(b.GetLogRange(observer.GetTailLength(), 0))
+	observer.SetLines(b.getLogRange(observer.GetTailLength(), 0))
 	b.observers[observer.GetUniqueID()] = observer
 }
 
